@@ -36,7 +36,8 @@ type StreamCase struct {
 var damages = []string{"broken-middle", "foreign-middle", "empty", "truncated-last", "broken-first",
 	// every tree file of the command line as a Nexus / PhyloXML document (--format applies to all of
 	// them), the file under test intact, without any tree, or cut in the middle
-	"nexus-intact", "nexus-notrees", "nexus-cut", "phyloxml-intact", "phyloxml-empty", "phyloxml-cut"}
+	"nexus-intact", "nexus-notrees", "nexus-cut", "phyloxml-intact", "phyloxml-empty", "phyloxml-cut",
+	"nextstrain-intact", "nextstrain-empty", "nextstrain-cut"}
 
 // asFormat rewrites a text of Newick trees as a Nexus or PhyloXML document (false: not possible).
 func asFormat(text, format string) (string, bool) {
@@ -45,6 +46,14 @@ func asFormat(text, format string) (string, bool) {
 	}
 	if strings.TrimSpace(text) == "" {
 		return "", false
+	}
+	if format == "nextstrain" {
+		// one tree per document
+		m, err := ref.Parse(strings.Split(strings.TrimSpace(text), "\n")[0])
+		if err != nil {
+			return "", false
+		}
+		return docs.Nextstrain(m, true), true
 	}
 	var ms []*ref.Node
 	for _, l := range strings.Split(strings.TrimSpace(text), "\n") {
@@ -119,7 +128,7 @@ func checkStream(c StreamCase) error {
 		return fmt.Errorf("harness: data set has no file %q", c.File)
 	}
 	var extra []string
-	if i := strings.Index(c.Damage, "-"); i > 0 && (c.Damage[:i] == "nexus" || c.Damage[:i] == "phyloxml") {
+	if i := strings.Index(c.Damage, "-"); i > 0 && (c.Damage[:i] == "nexus" || c.Damage[:i] == "phyloxml" || c.Damage[:i] == "nextstrain") {
 		format, what := c.Damage[:i], c.Damage[i+1:]
 		for _, a := range tp.Args {
 			if a == "--format" || a == "--input-format" {
@@ -136,6 +145,9 @@ func checkStream(c StreamCase) error {
 			d.Files[c.File] = "#NEXUS\nBEGIN TAXA;\n DIMENSIONS NTAX=2;\n TAXLABELS a b;\nEND;\n"
 		case "empty":
 			d.Files[c.File] = "<phyloxml></phyloxml>\n"
+			if format == "nextstrain" {
+				d.Files[c.File] = "{\"version\":\"v2\",\"meta\":{}}\n"
+			}
 		case "cut":
 			d.Files[c.File] = d.Files[c.File][:len(d.Files[c.File])*3/5]
 		}
@@ -154,7 +166,7 @@ func checkStream(c StreamCase) error {
 }
 
 func TestC02CliStreams(t *testing.T) {
-	r := h.NewRecorder(t, "C02", "cli-streams", "every command template x every Newick tree file it reads (stdin, -i, -c, -b ...) x damage {record that is not a tree first / in the middle, tree on other taxa in the middle, empty file, last tree without ';'; all tree files as Nexus or PhyloXML documents with --format, the file under test intact / without any tree / cut in the middle} x {1 thread, 4 threads where the command has -t}, on a data set generated from VERIF_SEED: the process must end by itself within 60 s and print no Go panic trace; the exit status is not judged; every case is non-trivial")
+	r := h.NewRecorder(t, "C02", "cli-streams", "every command template x every Newick tree file it reads (stdin, -i, -c, -b ...) x damage {record that is not a tree first / in the middle, tree on other taxa in the middle, empty file, last tree without ';'; all tree files as Nexus, PhyloXML or Nextstrain documents with --format, the file under test intact / without any tree / cut in the middle} x {1 thread, 4 threads where the command has -t}, on a data set generated from VERIF_SEED: the process must end by itself within 60 s and print no Go panic trace; the exit status is not judged; every case is non-trivial")
 	var rc StreamCase
 	if replaying, mine := r.ReplayCase(&rc); replaying {
 		if mine {
